@@ -29,6 +29,34 @@ func featuresFromContext(ctx context.Context) graphql.FeatureSet {
 	return fs
 }
 
+// wsInitHook is the application's Config.HandleGraphQLWSInit: when the connection_init payload carries
+// a "features" member, the connection's feature set is the one listed there (granting and revoking
+// relative to the upgrade request's context, as an auth token in connection_init would); otherwise the
+// upgrade request's context stands.
+func wsInitHook(ctx context.Context, parameters json.RawMessage) (context.Context, error) {
+	var p struct {
+		Features *[]string `json:"features"`
+	}
+	if len(parameters) > 0 && json.Unmarshal(parameters, &p) == nil && p.Features != nil {
+		return context.WithValue(ctx, featKey{}, graphql.NewFeatureSet((*p.Features)...)), nil
+	}
+	return ctx, nil
+}
+
+// WSVariant says how a socket obtains its features.
+type WSVariant struct {
+	Proto   string    `json:"proto"`          // graphql-ws | graphql-transport-ws
+	Upgrade []string  `json:"upgrade"`        // features in the upgrade request's context
+	Init    *[]string `json:"init,omitempty"` // features in the connection_init payload (the hook installs them)
+}
+
+func (v WSVariant) String() string {
+	if v.Init == nil {
+		return fmt.Sprintf("%s upgrade=%v", v.Proto, v.Upgrade)
+	}
+	return fmt.Sprintf("%s upgrade=%v init=%v", v.Proto, v.Upgrade, *v.Init)
+}
+
 // apiCompatible: apifu.Config owns the types named Query, Mutation and Node; a spec can only be
 // mounted on it when nothing refers to the spec's own root objects as a field type and no type
 // collides with the names the configuration defines itself.
@@ -86,7 +114,7 @@ func buildAPI(spec *Spec, w *world) (*apifu.API, error) {
 	}
 	logger := logrus.New()
 	logger.SetOutput(io.Discard)
-	cfg := &apifu.Config{Features: featuresFromContext, Logger: logger}
+	cfg := &apifu.Config{Features: featuresFromContext, Logger: logger, HandleGraphQLWSInit: wsInitHook}
 	for name, f := range def.Query.Fields {
 		cfg.AddQueryField(name, f)
 	}
@@ -139,10 +167,11 @@ func serveHTTP(api *apifu.API, w *world, features []string, q *query) (o outcome
 }
 
 type wsSession struct {
-	api  *apifu.API
-	ts   *httptest.Server
-	conn *websocket.Conn
-	n    int
+	api   *apifu.API
+	ts    *httptest.Server
+	conn  *websocket.Conn
+	n     int
+	proto string
 }
 
 type wsMessage struct {
@@ -151,20 +180,35 @@ type wsMessage struct {
 	Payload json.RawMessage `json:"payload,omitempty"`
 }
 
-func dialWS(api *apifu.API, features []string) (*wsSession, error) {
-	s := &wsSession{api: api}
+func dialWS(api *apifu.API, v WSVariant) (*wsSession, error) {
+	if v.Proto == "" {
+		v.Proto = "graphql-ws"
+	}
+	s := &wsSession{api: api, proto: v.Proto}
 	s.ts = httptest.NewServer(http.HandlerFunc(func(w http.ResponseWriter, r *http.Request) {
-		r = r.WithContext(context.WithValue(r.Context(), featKey{}, graphql.NewFeatureSet(features...)))
+		r = r.WithContext(context.WithValue(r.Context(), featKey{}, graphql.NewFeatureSet(v.Upgrade...)))
 		api.ServeGraphQLWS(w, r)
 	}))
-	dialer := &websocket.Dialer{HandshakeTimeout: 2 * time.Second, Subprotocols: []string{"graphql-ws"}}
+	dialer := &websocket.Dialer{HandshakeTimeout: 2 * time.Second, Subprotocols: []string{v.Proto}}
 	conn, _, err := dialer.Dial("ws"+strings.TrimPrefix(s.ts.URL, "http"), nil)
 	if err != nil {
 		s.close()
 		return nil, err
 	}
 	s.conn = conn
-	if err := conn.WriteJSON(wsMessage{Type: "connection_init"}); err != nil {
+	if conn.Subprotocol() != v.Proto {
+		s.close()
+		return nil, fmt.Errorf("server chose sub-protocol %q, wanted %q", conn.Subprotocol(), v.Proto)
+	}
+	init := wsMessage{Type: "connection_init"}
+	if v.Init != nil {
+		fs := *v.Init
+		if fs == nil {
+			fs = []string{}
+		}
+		init.Payload, _ = json.Marshal(map[string]interface{}{"features": fs})
+	}
+	if err := conn.WriteJSON(init); err != nil {
 		s.close()
 		return nil, err
 	}
@@ -178,7 +222,7 @@ func dialWS(api *apifu.API, features []string) (*wsSession, error) {
 		if m.Type == "connection_ack" {
 			return s, nil
 		}
-		if m.Type != "ka" {
+		if m.Type != "ka" && m.Type != "ping" && m.Type != "pong" {
 			s.close()
 			return nil, fmt.Errorf("unexpected %s before ack", m.Type)
 		}
@@ -187,7 +231,9 @@ func dialWS(api *apifu.API, features []string) (*wsSession, error) {
 
 func (s *wsSession) close() {
 	if s.conn != nil {
-		s.conn.WriteJSON(wsMessage{Type: "connection_terminate"})
+		if s.proto == "graphql-ws" {
+			s.conn.WriteJSON(wsMessage{Type: "connection_terminate"})
+		}
 		s.conn.Close()
 	}
 	s.api.CloseHijackedConnections()
@@ -201,7 +247,11 @@ func (s *wsSession) run(w *world, q *query) (o outcome) {
 	s.n++
 	id := fmt.Sprintf("q%d", s.n)
 	payload, _ := json.Marshal(map[string]interface{}{"query": q.Text, "variables": q.Vars})
-	if err := s.conn.WriteJSON(wsMessage{Id: id, Type: "start", Payload: payload}); err != nil {
+	start := "start"
+	if s.proto == "graphql-transport-ws" {
+		start = "subscribe"
+	}
+	if err := s.conn.WriteJSON(wsMessage{Id: id, Type: start, Payload: payload}); err != nil {
 		o.Resp = "ws write: " + err.Error()
 		return o
 	}
@@ -214,8 +264,12 @@ func (s *wsSession) run(w *world, q *query) (o outcome) {
 		}
 		switch {
 		case m.Type == "ka":
-		case m.Id == id && (m.Type == "data" || m.Type == "error"):
-			o.Resp = m.Type + " " + canonResponse(m.Payload, q)
+		case m.Type == "ping":
+			s.conn.WriteJSON(wsMessage{Type: "pong"})
+		case m.Id == id && (m.Type == "data" || m.Type == "next"):
+			o.Resp = canonResponse(m.Payload, q)
+		case m.Id == id && m.Type == "error":
+			o.Resp = "error " + string(m.Payload)
 		case m.Id == id && m.Type == "complete":
 			w.mu.Lock()
 			o.Log = append([]string(nil), w.log...)
@@ -225,7 +279,7 @@ func (s *wsSession) run(w *world, q *query) (o outcome) {
 	}
 }
 
-const obAPI = "oracle (API layer): ServeGraphQL / graphql-ws with Config.Features: response(S,F,q) == response(erase(S,F), all features, q)"
+const obAPI = "oracle (API layer): ServeGraphQL and graphql-ws / graphql-transport-ws sockets (features from the upgrade context or installed by the HandleGraphQLWSInit hook) with Config.Features: response(S,F,q) == response(requirement-free erase(S,F), no features, q)"
 
 // checkAPI runs the differential through apifu.API for one schema. It returns false when the spec
 // cannot be mounted on an apifu.Config.
@@ -254,18 +308,54 @@ func (h *harness) checkAPI(spec *Spec, r interface {
 			h.run.Violate("property", fmt.Sprintf("API layer: erase(S,F) cannot be mounted for F=%v: %v", F, err), "", false, &Case{Spec: spec, F: F})
 			continue
 		}
-		var wsA, wsB *wsSession
+		// sockets on S: one takes F from the upgrade request's context, one gets a different set there
+		// and F from the init hook (connection_init payload); the two sub-protocols alternate
+		var wsA []*wsSession
+		var wsVar []WSVariant
+		var wsB *wsSession
 		if withWS {
-			if wsA, err = dialWS(full, F); err == nil {
-				wsB, err = dialWS(erased, nil)
+			protos := []string{"graphql-ws", "graphql-transport-ws"}
+			h.wsCount++
+			other := []string(nil)
+			switch {
+			case len(F) == 0:
+				other = feats
+			case len(F) == len(feats):
+			case r.Intn(2) == 0:
+				other = feats
+			}
+			initF := append([]string{}, F...)
+			wsVar = []WSVariant{
+				{Proto: protos[h.wsCount%2], Upgrade: F},
+				{Proto: protos[(h.wsCount+1)%2], Upgrade: other, Init: &initF},
+			}
+			var err error
+			for _, v := range wsVar {
+				var sess *wsSession
+				if sess, err = dialWS(full, v); err != nil {
+					break
+				}
+				wsA = append(wsA, sess)
+			}
+			if err == nil {
+				wsB, err = dialWS(erased, WSVariant{Proto: protos[h.wsCount%2]})
 			}
 			if err != nil {
-				if wsA != nil {
-					wsA.close()
+				for _, sess := range wsA {
+					sess.close()
 				}
 				h.run.Note("websocket setup failed: %v", err)
 				wsA, wsB = nil, nil
 			}
+		}
+		closeWS := func() {
+			for _, sess := range wsA {
+				sess.close()
+			}
+			if wsB != nil {
+				wsB.close()
+			}
+			wsA, wsB = nil, nil
 		}
 		for _, q := range qs(F) {
 			q := q
@@ -292,36 +382,37 @@ func (h *harness) checkAPI(spec *Spec, r interface {
 			}
 			// a panic in the HTTP path (recovered there, equal on both sides) would kill the process on
 			// the WebSocket connection's goroutine: such a query is not sent over the socket
-			if wsA != nil && a.Panic == "" && b.Panic == "" {
-				a := wsA.run(fw, &q)
+			if wsB != nil && a.Panic == "" && b.Panic == "" {
 				b := wsB.run(ew, &q)
-				if strings.HasPrefix(a.Resp, "ws ") || strings.HasPrefix(b.Resp, "ws ") {
-					// socket I/O failed (deadline under load): not a verdict about the library
-					h.run.Count("api:ws-io-error")
-					h.run.Note("websocket I/O error, socket comparison abandoned for this schema: %s / %s", a.Resp, b.Resp)
-					wsA.close()
-					wsB.close()
-					wsA, wsB = nil, nil
-					continue
-				}
-				what := compareOutcomes(origX, F, a, b)
-				if what != "" {
-					a2 := wsA.run(fw, &q)
-					if a2.Resp == b.Resp {
-						what = ""
+				for vi := 0; vi < len(wsA) && wsB != nil; vi++ {
+					a := wsA[vi].run(fw, &q)
+					if strings.HasPrefix(a.Resp, "ws ") || strings.HasPrefix(b.Resp, "ws ") {
+						// socket I/O failed (deadline under load): not a verdict about the library
+						h.run.Count("api:ws-io-error")
+						h.run.Note("websocket I/O error, socket comparison abandoned for this schema: %s / %s", a.Resp, b.Resp)
+						closeWS()
+						break
 					}
-				}
-				h.run.Count("api:ws")
-				h.run.Oblige(obAPI, "oracle", 1, what == "", what)
-				if what != "" {
-					h.reportAPI(&Case{Spec: spec.clone(), F: F, Query: q, Respect: respect, Seed: seed, Doc: q.doc}, "API/WS: "+what)
+					what := compareOutcomes(origX, F, a, b)
+					if what != "" {
+						a2 := wsA[vi].run(fw, &q)
+						if a2.Resp == b.Resp {
+							what = ""
+						}
+					}
+					h.run.Count("api:ws:" + wsVar[vi].Proto)
+					if wsVar[vi].Init != nil {
+						h.run.Count("api:ws:features-from-init-hook")
+					}
+					h.run.Oblige(obAPI, "oracle", 1, what == "", what)
+					if what != "" {
+						v := wsVar[vi]
+						h.reportAPI(&Case{Spec: spec.clone(), F: F, Query: q, Respect: respect, Seed: seed, Doc: q.doc, WS: &v}, "API/WS ("+v.String()+"): "+what)
+					}
 				}
 			}
 		}
-		if wsA != nil {
-			wsA.close()
-			wsB.close()
-		}
+		closeWS()
 	}
 	return true
 }
